@@ -262,6 +262,23 @@ def check_ack(run, bp, g, cards, funs):
             run.cls("ack:repeated")
         case = {"bp": bp, "cards": cards, "funs": funs}
         ack = rw.Ackermannizer(env)
+        if g.pct(35):
+            # one Ackermannizer object used for two formulas: first a sub-formula (its applications are then
+            # already known to the object), then the formula itself
+            subs_ = [x for x in B.subterms(b0) if x is not b0 and "FUNCTION" in B.ops_of(x)]
+            boolsubs = []
+            for x in subs_:
+                try:
+                    if reftype(x) == BOOL:
+                        boolsubs.append(x)
+                except IllTyped:
+                    pass
+            if boolsubs:
+                try:
+                    with_timeout(5, lambda: ack.do_ackermannization(pys.build(env, g.choice(boolsubs))))
+                    run.cls("ack:object-reused")
+                except Exception:
+                    ack = rw.Ackermannizer(env)
         try:
             out = with_timeout(5, lambda: ack.do_ackermannization(f))
         except Timeout:
